@@ -302,7 +302,32 @@ GenTrianglesInside(g) == \A k \in 1 .. Len(g.TIN) : g.TIN[k]      \* every trian
 GenPlaced(g) == /\ GenOrientation(g) /\ GenBoundaryIsOutline(g) /\ GenEuler(g) /\ GenTrianglesTile(g)
                 /\ GenTrianglesInside(g) /\ GenTerminals(g)
 
+\* The domain THE USER SPECIFIED: when film and holes are plain primitives, g.ANA holds what the harness derived from the
+\* numbers it passed to them (rectangle w x h centred at c, tilted counter-clockwise by `angle` about (0,0); ellipse a, b
+\* with n vertices), by its own formulas - not from device.film.points:
+\*   corners  the rectangle corners (quantised): each must be a boundary site of the mesh
+\*   bres     for every boundary site, its residual against each analytic outline (rectangle: signed distance in quanta;
+\*            ellipse: (x/a)^2+(y/b)^2-1 in 1e-6, which lies in [cos^2(pi/n)-1, 0] on the inscribed polygon)
+\*   ain      every site lies in the analytic film and in no analytic hole
+\*   area2    twice the analytic area (w h; n/2 a b sin(2 pi/n)) of film minus holes
+\*   tcover   length of the analytic film outline inside each analytic terminal
+GenAnalytic(g) ==
+  g.ANA.have =>
+    /\ \A c \in 1 .. Len(g.ANA.corners) :
+          \E i \in 1 .. Len(g.P) : g.BS[i] /\ Abs(g.P[i][1] - g.ANA.corners[c][1]) <= 2 /\ Abs(g.P[i][2] - g.ANA.corners[c][2]) <= 2
+    /\ Len(g.ANA.bres) = NSum([i \in 1 .. Len(g.BS) |-> IF g.BS[i] THEN 1 ELSE 0], 1, Len(g.BS))
+    /\ \A r \in 1 .. Len(g.ANA.bres) :
+          LET e == g.ANA.bres[r] IN
+          /\ g.BS[e.i] /\ (r > 1 => g.ANA.bres[r - 1].i < e.i)
+          /\ \E k \in 1 .. Len(e.res) : g.ANA.lo[k] <= e.res[k] /\ e.res[k] <= g.ANA.hi[k]
+    /\ \A i \in 1 .. Len(g.ANA.ain) : g.ANA.ain[i]
+    /\ Len(g.ANA.ain) = Len(g.P)
+    /\ Abs(NSum([k \in 1 .. Len(g.T) |-> Orient(g.P, g.T[k])], 1, Len(g.T)) - g.ANA.area2) <= 2 * g.PER + 4
+    /\ \A k \in 1 .. Len(g.ANA.tcover) : Abs(g.TERM[k].len - g.ANA.tcover[k]) <= 2 * g.TERM[k].maxedge + 2
+
 GenAll(g) == /\ GenOrientation(g) /\ GenIncidence(g) /\ GenBoundaryFlags(g) /\ GenBoundaryIsOutline(g) /\ GenEuler(g)
              /\ GenTiling(g) /\ GenTrianglesInside(g) /\ GenCellAreas(g) /\ GenDualLengths(g) /\ GenEdgeVectors(g) /\ GenTerminals(g)
-             /\ GenMostlyWellCentred(g)
+             /\ GenAnalytic(g)
+\* (GenMostlyWellCentred is a vacuity measure, not a clause of C07: coarse strips may have no well-centred site at all;
+\*  the check requires it in aggregate over all generated meshes)
 =============================================================================
